@@ -242,7 +242,7 @@ func timeExp(t time.Time) Exp {
 	case zerolog.TimeFormatUnixNano:
 		return N(strconv.FormatInt(t.UnixNano(), 10))
 	}
-	return Exp{Kind: 's', Str: t.Format(zerolog.TimeFieldFormat)}
+	return S(t.Format(zerolog.TimeFieldFormat)) // (S: invalid UTF-8 - from a zone name or the layout - reads back as U+FFFD)
 }
 
 func durExp(d time.Duration) Exp {
